@@ -356,6 +356,153 @@ pub fn pumping(tier: Tier) -> Vec<String> {
     out
 }
 
+/// A11 — size ladder: a size parameter runs through EVERY value 0..=N (not only powers of two):
+/// the length of each component (several fillers, with a distinguished character first / last),
+/// the number of qualifiers, checksum entries, namespace and subpath segments, separators; with
+/// the orders ascending / descending / zig-zag, a key or algorithm in another letter case, an
+/// interleaved empty value, and a repeated key at the first / middle / last position.
+pub fn ladder(tier: Tier) -> &'static [String] {
+    static Q: std::sync::OnceLock<Vec<String>> = std::sync::OnceLock::new();
+    static T: std::sync::OnceLock<Vec<String>> = std::sync::OnceLock::new();
+    match tier {
+        Tier::Quick => Q.get_or_init(|| ladder_gen(tier)),
+        Tier::Thorough => T.get_or_init(|| ladder_gen(tier)),
+    }
+}
+
+fn ladder_gen(tier: Tier) -> Vec<String> {
+    let (nlen, ncount) = match tier {
+        Tier::Quick => (300usize, 80usize),
+        Tier::Thorough => (2100usize, 300usize),
+    };
+    let mut out: Vec<String> = Vec::new();
+    // -- component lengths
+    let frames: [(&str, &str); 14] = [
+        ("pkg:", "/n"),
+        ("pkg:t/", "/n"),
+        ("pkg:t/", ""),
+        ("pkg:pypi/", ""),
+        ("pkg:nuget/", ""),
+        ("pkg:npm/g/", "@1"),
+        ("pkg:t/n@", ""),
+        ("pkg:t/n?k=", ""),
+        ("pkg:t/n?", "=v"),
+        ("pkg:t/n?checksum=a:", ""),
+        ("pkg:t/n?checksum=", ":00"),
+        ("pkg:t/n#", ""),
+        ("pkg:maven/", "/n"),
+        ("pkg:t/n@1?k=v#a/", "/b"),
+    ];
+    let units: [&str; 9] = ["a", "A", "0", "é", "%C3%A9", "-", "a-", "Ab", "%41"];
+    let edges: [&str; 6] = ["", "É", "-", ".", "%2F", "Z"];
+    for (p, s) in frames.iter() {
+        for u in units.iter() {
+            for n in 0..=nlen {
+                // the thorough ladder thins out above 300: every 7th length
+                if n > 300 && n % 7 != 0 {
+                    continue;
+                }
+                let body = u.repeat(n);
+                for e in edges.iter() {
+                    if e.is_empty() {
+                        out.push(format!("{p}{body}{s}"));
+                    } else if n % 2 == 1 || n < 40 {
+                        out.push(format!("{p}{body}{e}{s}"));
+                        out.push(format!("{p}{e}{body}{s}"));
+                    }
+                }
+            }
+        }
+    }
+    // -- counts
+    let key = |i: usize| format!("k{i:03}");
+    let orders = |n: usize| -> Vec<Vec<usize>> {
+        let asc: Vec<usize> = (0..n).collect();
+        let desc: Vec<usize> = (0..n).rev().collect();
+        let zig: Vec<usize> = (0..n).map(|i| if i % 2 == 0 { i / 2 } else { n - 1 - i / 2 }).collect();
+        if n < 2 {
+            vec![asc]
+        } else {
+            vec![asc, desc, zig]
+        }
+    };
+    for n in 0..=ncount {
+        for (oi, ord) in orders(n).iter().enumerate() {
+            // variant 0: plain; 1: every third key upper-case; 2: an empty-valued qualifier in the middle;
+            // 3..5: the first / middle / last key repeated in the other case at the end (must be refused);
+            // 6: a checksum among them; 7: values that need escaping
+            for variant in 0..8 {
+                if variant >= 3 && variant <= 5 && n == 0 {
+                    continue;
+                }
+                let mut items: Vec<String> = Vec::new();
+                for (j, i) in ord.iter().enumerate() {
+                    let mut k = key(*i);
+                    if variant == 1 && j % 3 == 0 {
+                        k = k.to_ascii_uppercase();
+                    }
+                    let v = if variant == 7 { format!("v%26{i}%20+") } else { format!("v{i}") };
+                    items.push(format!("{k}={v}"));
+                    if variant == 2 && j == n / 2 {
+                        items.push("k0005=".to_owned());
+                    }
+                    if variant == 6 && j == n / 2 {
+                        items.push("checksum=B:FF,a:00".to_owned());
+                    }
+                }
+                match variant {
+                    3 => items.push(format!("{}=w", key(ord[0]).to_ascii_uppercase())),
+                    4 => items.push(format!("{}=w", key(ord[n / 2]).to_ascii_uppercase())),
+                    5 => items.insert(0, format!("{}=w", key(ord[n - 1]).to_ascii_uppercase())),
+                    _ => {},
+                }
+                let _ = oi;
+                out.push(format!("pkg:t/n?{}", items.join("&")));
+                if variant < 3 {
+                    out.push(format!("pkg:npm/n@1?{}#s", items.join("&")));
+                }
+            }
+            // checksum entries
+            for variant in 0..5 {
+                if variant >= 2 && n == 0 {
+                    continue;
+                }
+                let alg = |i: usize| format!("h{i:03}");
+                let mut items: Vec<String> = Vec::new();
+                for (j, i) in ord.iter().enumerate() {
+                    let mut a = alg(*i);
+                    if variant == 1 && j % 2 == 0 {
+                        a = a.to_ascii_uppercase();
+                    }
+                    items.push(format!("{a}:{:02X}aB", i % 256));
+                }
+                match variant {
+                    2 => items.push(format!("{}:00", alg(ord[0]).to_ascii_uppercase())),
+                    3 => items.push(format!("{}:00", alg(ord[n / 2]).to_ascii_uppercase())),
+                    4 => items.insert(0, format!("{}:00", alg(ord[n - 1]).to_ascii_uppercase())),
+                    _ => {},
+                }
+                out.push(format!("pkg:t/n?checksum={}", items.join(",")));
+            }
+        }
+        // segments and separators
+        let segs: Vec<String> = (0..n).map(|i| format!("s{i}")).collect();
+        out.push(format!("pkg:t/{}/n", segs.join("/")));
+        out.push(format!("pkg:t/{}//n", segs.join("//")));
+        out.push(format!("pkg:maven/{}/n", segs.join("/")));
+        out.push(format!("pkg:t/n#{}", segs.join("/")));
+        out.push(format!("pkg:t/n#{}", segs.join("/./")));
+        out.push(format!("pkg:t/n#/{}/../", segs.join("/../")));
+        out.push(format!("pkg:golang/{}/n#{}", segs.join("/"), segs.join("/")));
+        for sep in ["/", "@", "?", "#", "&", "=", ":", "%2F", "."] {
+            out.push(format!("pkg:t/n{}x", sep.repeat(n)));
+            out.push(format!("pkg:t/g/n@1?k=v{}#s", sep.repeat(n)));
+            out.push(format!("pkg:{}t/n", sep.repeat(n)));
+        }
+    }
+    out
+}
+
 /// A9 — the one-edit neighbourhood of the upstream conformance corpus: every deletion, every
 /// insertion and every substitution of one token from a separator/escape alphabet at every position
 /// of every corpus string (input and canonical form), plus adjacent transpositions. Deterministic
